@@ -193,7 +193,97 @@ fn universe(r: &mut R, which: u8) -> Vec<Vec<u8>> {
     .collect()
 }
 
+/// A key held by tens of thousands of sources (source positions beyond 16 bits).
+pub fn scn_merge_many(out: &mut TraceOut, r: &mut R, _idx: u64, _heavy: bool) {
+    let nsrc = 65_540 + r.gen_range(0..5usize);
+    let keys: Vec<Vec<u8>> = vec![vec![1], vec![2], vec![3]];
+    let mut srcs: Vec<Vec<Entry>> = Vec::new();
+    for i in 0..nsrc {
+        let mut e = Vec::new();
+        // key 2 is held by the first, the last and a few sources in between
+        if i == 0 || i == 3 || i == 65_536 || i == nsrc - 1 || i == 40_000 {
+            e.push((keys[1].clone(), token_wide(i + 1, e.len() + 1)));
+        }
+        if i == 1 {
+            e.insert(0, (keys[0].clone(), token_wide(i + 1, 1)));
+        }
+        if i == 65_537 {
+            e.push((keys[2].clone(), token_wide(i + 1, e.len() + 1)));
+        }
+        srcs.push(e);
+    }
+    let dict = Dict::build(keys.iter().cloned());
+    out.ev(dict.event());
+    let cfg = Cfg::default_small();
+    let mut files = Vec::new();
+    for (i, s) in srcs.iter().enumerate() {
+        let ks: Vec<i64> = s.iter().map(|(k, _)| dict.id(k)).collect();
+        out.ev(json!({"ev": "Src", "i": i + 1, "keys": ks}));
+        files.push(std::rc::Rc::new(write_file(&cfg, s).bytes.unwrap()));
+    }
+    let rec = Recorder { mf: Mf::Concat, calls: RefCell::new(Vec::new()) };
+    let name_vals = |vals: &[Vec<u8>]| -> Vec<[i64; 2]> { vals.iter().map(|v| parse_wide(v)).collect() };
+    let res = catch_unwind(AssertUnwindSafe(|| -> Result<(), String> {
+        let mut b = Merger::builder(&rec);
+        for f in &files {
+            b.push(Reader::new(crate::cursor::Src::new(f.clone())).and_then(Reader::into_cursor).map_err(|e| e.to_string())?);
+        }
+        out.ev(json!({"ev": "Built", "res": "ok", "mf": "concat", "how": 1, "stream_writer": false}));
+        let mut it = b.build().into_stream_merger_iter().map_err(|e| e.to_string())?;
+        loop {
+            let item = it.next().map_err(|e| e.to_string())?.map(|(k, v)| (k.to_vec(), v.to_vec()));
+            for (k, vals) in rec.calls.borrow_mut().drain(..) {
+                out.ev(json!({"ev": "MergeCall", "k": dict.id(&k), "vals": name_vals(&vals)}));
+            }
+            match item {
+                Some((k, v)) => {
+                    let parts: Vec<Vec<u8>> = v.chunks(8).map(|c| c.to_vec()).collect();
+                    out.ev(json!({"ev": "Out", "k": dict.id(&k), "v": name_vals(&parts)}));
+                }
+                None => break,
+            }
+        }
+        out.ev(json!({"ev": "End", "res": "ok"}));
+        Ok(())
+    }));
+    if !matches!(res, Ok(Ok(()))) {
+        out.ev(json!({"ev": "End", "res": "failed"}));
+    }
+}
+
+/// 8-byte token [src u32][pos u32] (source numbers beyond 16 bits)
+fn token_wide(src: usize, pos: usize) -> Vec<u8> {
+    let mut v = (src as u32).to_be_bytes().to_vec();
+    v.extend_from_slice(&(pos as u32).to_be_bytes());
+    v
+}
+fn parse_wide(v: &[u8]) -> [i64; 2] {
+    if v.len() != 8 {
+        return [-1, -1];
+    }
+    [u32::from_be_bytes([v[0], v[1], v[2], v[3]]) as i64, u32::from_be_bytes([v[4], v[5], v[6], v[7]]) as i64]
+}
+
+/// Corner patterns of the merge family.
+fn merge_corner(idx: u64) -> Option<(Vec<Vec<Entry>>, bool)> {
+    let e = |k: &[u8], v: Vec<u8>| (k.to_vec(), v);
+    match idx {
+        // the shortest possible entry alone in a source / in the written output
+        5 => Some((vec![vec![e(b"", vec![])], vec![]], true)),
+        6 => Some((vec![vec![e(b"", vec![])], vec![e(b"", vec![])]], true)),
+        7 => Some((vec![vec![e(b"", vec![])], vec![e(b"a", token(2, 1, 5))]], false)),
+        // merged values whose concatenation lands on a framing boundary (2^14, 2^7)
+        8 => Some((vec![vec![e(b"k", token(1, 1, 10000))], vec![e(b"k", token(2, 1, 6384))]], true)),
+        9 => Some((vec![vec![e(b"k", token(1, 1, 100))], vec![e(b"k", token(2, 1, 28))], vec![e(b"z", token(3, 1, 128))]], true)),
+        10 => Some((vec![vec![e(b"k", token(1, 1, 16383))], vec![e(b"k", token(2, 1, 5))], vec![e(b"k", vec![])]], true)),
+        _ => None,
+    }
+}
+
 pub fn scn_merge(out: &mut TraceOut, r: &mut R, idx: u64, heavy: bool) {
+    if let Some((srcs, stream_writer)) = merge_corner(idx) {
+        return run_merge(out, r, idx, srcs, None, Some(stream_writer));
+    }
     // corner patterns first
     let k = match idx {
         0 => 0,
@@ -235,6 +325,11 @@ pub fn scn_merge(out: &mut TraceOut, r: &mut R, idx: u64, heavy: bool) {
         }
         cfgs.push(cfg);
     }
+    run_merge(out, r, idx, srcs, Some(cfgs), None)
+}
+
+fn run_merge(out: &mut TraceOut, r: &mut R, idx: u64, srcs: Vec<Vec<Entry>>, cfgs: Option<Vec<Cfg>>, force_writer: Option<bool>) {
+    let cfgs: Vec<Cfg> = cfgs.unwrap_or_else(|| srcs.iter().map(|_| Cfg::default_small()).collect());
     let sources = Sources::new(srcs);
     let dict = Dict::build(sources.srcs.iter().flat_map(|s| s.iter().map(|(k, _)| k.clone())));
     out.ev(dict.event());
@@ -252,7 +347,7 @@ pub fn scn_merge(out: &mut TraceOut, r: &mut R, idx: u64, heavy: bool) {
     }
     let mf = if r.gen_bool(0.75) { Mf::Concat } else { Mf::First };
     let mfname = if mf == Mf::Concat { "concat" } else { "first" };
-    let stream_writer = r.gen_bool(0.35);
+    let stream_writer = force_writer.unwrap_or_else(|| r.gen_bool(0.35));
     let how = r.gen_range(0..3);
     let rec = Recorder { mf, calls: RefCell::new(Vec::new()) };
     let res = catch_unwind(AssertUnwindSafe(|| -> Result<(), String> {
